@@ -156,7 +156,10 @@ row("C33", True, "E-CHOICE",
     "For each (schema, operation) workload and builder configuration, every answer sequence of the RandomProvider seam (bool / index / length answers) is enumerated — the whole choice tree where small, otherwise every sequence with at most k non-default answers — and ResponseBuilder::build runs on each; the response must have exactly the operation's shape for the concrete types chosen (key sets, list nesting per declared type, null only where nullable, enum values from the enum, __typename consistent) and be accepted when served back through execute_sync.",
     "One open known finding (nested list types generated with one list level) is predicted by a classifier.")
 
-row("C30", False, "E-HIST", "", "", "check not built yet in this revision (design in DESIGN.md §6 C30: BFS over clone/drop/convert histories of Name and Node with a counting allocator); not claimed")
+row("C30", True, "E-HIST",
+    "explicit-state breadth-first search over operation histories replayed on fresh real Name / Node objects, canonical-state dedup on a reference pool; oracle: reference counts, read-backs, sharing and allocator balance after every step",
+    "Name machine: 3 name slots, 2 witness Arc<str>s, up to 2 held handles, 49 operations (new, new_static, from_arc_unchecked, try_from, clone, From<&Name>, drop, with_location x2, to_cloned_arc kept / dropped, From<Name> for Arc<str>, drop handle); breadth-first to depth 5|7 over canonical reference-pool states, every (state, enabled operation) replayed on fresh real objects. After every step: text, location, static/heap tag of every slot, Arc::strong_count of every backing string (= live heap names + live handles), sharing between slots, equality / ordering / hashing ignoring locations. Node machine: 3 Node<String> slots, 36 operations (new, new_parsed, from, clone, drop, make_mut + write, get_mut + write, same_location) to depth 6|9: value, location, ptr_eq == sharing class, get_mut().is_some() == uniquely owned, make_mut leaves clones untouched. At the end of every history everything is dropped: witness counts are 1 and the per-thread counting allocator is back at its baseline. Every representative name history of depth <= 3|4 is replayed under every assignment of its operations to two OS threads (values cross threads).",
+    "Interleavings inside Arc::clone / drop (std::sync::Arc, triomphe::Arc) are not intercepted: trusted base; the two-thread replays hand the pool over between operations. Memory errors are detected through counts, sharing and allocator balance, not by instrumenting loads.")
 row("C31", True, "E-CHOICE",
     "loom (DPOR) exhaustive exploration of every interleaving of the real FileId::new on 2-4 threads through the cfg-guarded atomic seam (hook H1), unbounded and preemption-bounded; plus bounded exhaustive enumeration of the id packing lattice",
     "Model A: the real FileId::new runs on 2-3 (thorough: up to 4) loom threads, 1-3 allocations each, with parser::NEXT backed by a loom atomic through hook H1; loom enumerates every interleaving (complete DPOR for the 2-thread and 3x1 models, preemption bound 2|3 otherwise), from the counter's initial value and from just below 2^63 (up to, never across, the wrap); in every execution all ids are pairwise distinct, unreserved and untagged. Model B: loom threads each parse + validate + introspect against a shared Arc<Valid<Schema>>; every interleaving must give the sequential results. Packing: every id with <= 3 bits set below bit 63 and every run of ones (41.7 k ids; thorough adds complements and 4-bit combinations) is allocated by the real parser and observed through heap-tagged and static-tagged Names (location, as_static_str, to_cloned_arc, clone, equality).",
